@@ -67,6 +67,7 @@ def gen_case(rng, tier, index):
     w["contains"] = 2
     w["clear"] = 0.2
     w["clone"] = 0.4
+    w["fork_check"] = 0.15
     viewless = index % 3 == 0  # exact recency all the way
     if viewless:
         for o in ("values", "items", "eq_dict", "eq_cache", "ne_dict", "ne_keys", "popitem", "setdefault", "contains", "clear", "nested"):
@@ -271,6 +272,40 @@ def run_special(case, res, cls, lfu):
     res.seen(("special", what, n))
 
 
+def fork_check(obj, expect_list, probe, want_probe, what):
+    """The history goes on in a forked child for a moment: the child sees the object as the parent left it (same listing,
+    same answer to one lookup). Returns None or a description of what the child saw."""
+    import os
+    r, w = os.pipe()
+    pid = os.fork()
+    if pid == 0:
+        msg = b""
+        try:
+            os.close(r)
+            got = (outcome(lambda: list(obj)), outcome(probe))
+            if got != (("ok", expect_list), want_probe):
+                msg = repr(got).encode()[:600]
+        except BaseException as e:
+            msg = ("child raised " + repr(e)).encode()[:600]
+        finally:
+            try:
+                os.write(w, msg)
+            finally:
+                os._exit(0)
+    os.close(w)
+    data = b""
+    while True:
+        chunk = os.read(r, 4096)
+        if not chunk:
+            break
+        data += chunk
+    os.close(r)
+    os.waitpid(pid, 0)
+    if data:
+        return f"{what}: a forked child sees (listing, lookup) -> {data.decode(errors='replace')}; the parent has {expect_list!r} / {want_probe}"
+    return None
+
+
 def run_case(case, res):
     from windpyutils.structures.caches import LRUCache
     if case.get("special"):
@@ -386,6 +421,14 @@ def run_case(case, res):
                     raise Violation("view-content", f"popitem() -> {got}, not a (key, value) pair of {m.val!r}", {})
                 m.delete(got[1][0])
                 adopt = "any"
+        elif op == "fork_check" and n <= 40:
+            kk = next(iter(m.val), k)
+            order_now = _guard("list(cache)", n, lambda: list(c))
+            bad = fork_check(c, order_now[1], (lambda: kk in c), ("ok", kk in m.val), "LRUCache")
+            if bad:
+                raise Violation("fork-view", bad, {})
+            res.count("histories_looked_at_from_a_forked_child")
+            adopt = "any"
         elif op == "clone":
             # the caller goes on with a copy of the cache (copy.deepcopy / a pickle round trip, e.g. a cache handed to
             # another process): the copy is a cache with the same content, recency / use counts included
